@@ -233,7 +233,7 @@ def control_types_family(ctx: t.Any) -> None:
                         ctx.violation(f"control-type:repack-differs:{'known' if ct in known else 'generic'}", f"control type {ct!r} value {v!r} decodes to {A.src(got)[:100]}, which re-encodes differently", case)
                     elif ct not in known and (type(got) is not L.LDAPControl or got != sent):
                         ctx.violation("control-type:generic-control-altered", f"generic control {A.src(sent)} decodes to {A.src(got)[:120]}", case)
-                    elif ct in known and (got.control_type != ct or got.critical is not crit or getattr(got, "value", v) != v):
+                    elif ct in known and (got.control_type != ct or got.critical is not crit or getattr(got, "value", None) not in (None, v)):
                         ctx.violation("control-type:known-control-altered", f"control {A.src(sent)} of known type decodes to {A.src(got)[:120]}", case)
         ctx.distinct.add(("control-type", ct))
 
